@@ -295,6 +295,27 @@ def run(run):
                                    'got': sink.value(), 'expected': exp,
                                    'back': tuple(back)})
                     return
+                # a block record (x, z differ between the threads' records)
+                new_ = ctx.protocol_later_eq(741)
+                rx, ry, rz, rs = (r.randrange(16), r.randrange(16 if new_
+                                                               else 256),
+                                  r.randrange(16), r.getrandbits(12))
+                exp = rw.pack_block_record_new(rx, ry, rz, rs) if new_ else \
+                    rw.pack_block_record_old(rx, ry, rz, rs)
+                sink = Sink()
+                try:
+                    MBC.Record.send_with_context(
+                        MBC.Record(x=rx, y=ry, z=rz, block_state_id=rs),
+                        sink, ctx)
+                    b2 = MBC.Record.read_with_context(Stream(exp), ctx)
+                    backt = (b2.x, b2.y, b2.z, b2.block_state_id)
+                except Exception as e:
+                    backt = repr(e)
+                if sink.value() != exp or backt != (rx, ry, rz, rs):
+                    errors.append({'pv': pv, 'record': (rx, ry, rz, rs),
+                                   'got': sink.value(), 'expected': exp,
+                                   'back': backt})
+                    return
         try:
             for a, b in pairs:
                 n = 60000 if thorough else 15000
@@ -306,12 +327,35 @@ def run(run):
                     t.join(120.0)
                 run.bulk(2 * n, 0)
                 run.count('concurrent_codec_calls', 2 * n)
+                # the same with a pre-emption injected at the statements of
+                # the codecs themselves (both threads on the same side of the
+                # switches as well: shared scratch state needs no version
+                # difference to show)
+                if errors:
+                    break
+                from ..probes.linemon import LineMonitor as _LM
+                n2 = 4000 if thorough else 800
+                with _LM(files=['minecraft/networking/types/basic.py',
+                                'minecraft/networking/packets/clientbound/'
+                                'play/block_change_packet.py'],
+                         yield_prob=0.3, seed=run.seed) as mon_:
+                    ts = [threading.Thread(target=hammer, args=(a, n2, 3)),
+                          threading.Thread(target=hammer, args=(b, n2, 4)),
+                          threading.Thread(target=hammer, args=(b, n2, 5))]
+                    for t in ts:
+                        t.start()
+                    for t in ts:
+                        t.join(120.0)
+                    run.count('concurrent_codec_calls_with_yield_injection',
+                              3 * n2)
+                    run.count('codec_yields_injected', mon_.yields)
         finally:
             sys.setswitchinterval(old_si)
         if errors:
-            run.violation('position/concurrent-versions', 'two threads using '
-                          'the position codec for versions on either side of '
-                          'the layout switch disturb each other', errors[0])
+            run.violation('position/concurrent-versions' if 'triple' in
+                          errors[0] else 'record/concurrent', 'two or three '
+                          'threads using the position / block-record codecs '
+                          'at the same time disturb each other', errors[0])
 
     # ---- one context, its version reassigned by another thread ----------------
     # (what connect() does to the connection's context when negotiation ends,
